@@ -1,4 +1,5 @@
 import AlatorVerif.Lemmas.SrvClock
+import AlatorVerif.Model.PenDs
 /-!
 # C07 — a backtest visits every dataset date exactly once, in order, then stops (both servers)
 
@@ -59,6 +60,54 @@ theorem loop_performs_exactly_N_ticks (adm : App E Q → A) (i : Nat) (fuel : Na
     (hc : ClockOK ds bt) (hN : 0 < ds.dates.length) (hf : ds.dates.length - bt.pos ≤ fuel) :
     loopTicks X adm i fuel a = ds.dates.length - bt.pos :=
   loop_terminates X adm i fuel a bt ds hb hd hc hN hf
+
+/-! ### the dataset itself: `Penelope` (`rotala/src/input/penelope.rs`), built by `add_quote` calls
+
+The statements above take the dataset as a list of dates and a lookup. These say what list and lookup
+`add_quote` builds (`AlatorVerif/Model/Penelope.lean`; the server driver builds its datasets with it). -/
+section
+open PPen
+variable {σ α Q' : Type} [DecidableEq σ]
+
+/-- whatever sequence of `add_quote` calls built it: each date with at least one quote is listed exactly
+    once, nothing else is listed, and exactly the listed dates have quotes to pass to the exchange -/
+theorem dataset_lists_each_stored_date_once (es : List (Entry σ α)) (syms : List σ)
+    (mk : List (Entry σ α) → Q') :
+    let ds := Dataset.ofPen (({} : Pen σ α).addAll es) syms mk
+    ds.dates.Nodup ∧ (∀ d, d ∈ ds.dates ↔ ∃ e ∈ es, e.date = d) ∧ (∀ d, (ds.quotes d).isSome ↔ d ∈ ds.dates) := by
+  refine ⟨addAll_nodup es _ List.nodup_nil, ?_, ?_⟩
+  · intro d
+    have h := addAll_dates es ({} : Pen σ α) (by intro x; simp) d
+    rw [addAll_entries] at h
+    simpa [Dataset.ofPen] using h
+  · intro d
+    simp only [Dataset.ofPen, Pen.hasDate]
+    by_cases hc : (({} : Pen σ α).addAll es).dates.contains d = true
+    · simp only [hc, if_true, Option.isSome_some, true_iff]; simpa using hc
+    · simp only [hc, Bool.false_eq_true, if_false, Option.isSome_none, false_iff]; simpa using hc
+
+/-- a series loaded date by date (non-decreasing dates, any number of symbols per date) gives
+    `d1 < d2 < … < dN` -/
+theorem dataset_loaded_in_date_order_is_increasing (es : List (Entry σ α)) (syms : List σ)
+    (mk : List (Entry σ α) → Q') (h : es.Pairwise (fun e f => e.date ≤ f.date)) :
+    (Dataset.ofPen (({} : Pen σ α).addAll es) syms mk).dates.Pairwise (· < ·) :=
+  addAll_sorted es _ List.Pairwise.nil (by intro x hx; simp at hx) h
+
+/-- the quotes handed to the exchange for a date are, per symbol, the last ones added for that date -/
+theorem dataset_quote_is_last_added (es pre post : List (Entry σ α)) (e : Entry σ α)
+    (hes : es = pre ++ e :: post) (hpost : ∀ f ∈ post, ¬ (f.date = e.date ∧ f.sym = e.sym)) :
+    (({} : Pen σ α).addAll es).quote e.date e.sym = some e :=
+  quote_last _ e.date e.sym pre post e (by rw [addAll_entries, hes]; rfl) ⟨rfl, rfl⟩ hpost
+
+/-- with increasing dates, a later position shows a strictly later date: together with
+    `clock_after_any_interleaving` no date is visited twice or out of order -/
+theorem later_position_later_date (ds : Dataset Q') (h : ds.dates.Pairwise (· < ·)) (k k' : Nat)
+    (hk : k < k') (hk' : k' < ds.dates.length) : ds.dates[k]'(Nat.lt_trans hk hk') < ds.dates[k'] :=
+  (List.pairwise_iff_getElem.mp h) k k' (Nat.lt_trans hk hk') hk' hk
+
+example : (Dataset.ofPen (({} : Pen String Nat).addAll [⟨100, "A", 1, 2⟩, ⟨100, "B", 3, 4⟩, ⟨101, "A", 5, 6⟩, ⟨100, "A", 7, 8⟩])
+    ["A", "B"] (fun l => l.map (·.bid))).dates = [100, 101] := by decide
+end
 
 /-! the statements hold in particular for the two servers of the repository -/
 section
